@@ -3,7 +3,10 @@
    model  = the importer model run on the items (the records Go's reader delivered)
    spec   = evaluated on the binary's output by the observer (it needs `knut print`), which
             appends " | print=... | rows=..." to the observation; here that is turned into
-            the verdict. *)
+            the verdict.  Then the statement-level specification (Spec/ImpStmtA.v, theorems
+            C13_<importer>_stdout) is evaluated: a statement the generator calls well-formed must
+            satisfy <importer>_statement_wf, and the binary's stdout must be
+            <importer>_statement_output of the records. *)
 open Drv_util
 open Drv_journal
 
@@ -73,6 +76,21 @@ let split_observed (obs : string) : string * string * string =
 
 let clip n s = if String.length s > n then String.sub s 0 n else s
 
+(* the records of a statement all of whose reader items are records *)
+let records_of (its : K.citem list) : K.z list list list option =
+  List.fold_right (fun it acc -> match it, acc with
+    | K.CRec r, Some l -> Some (r :: l) | _, _ -> None) its (Some [])
+
+(* the verdict `spec`: the extracted <importer>_statement_output (Spec/ImpStmtA.v, Spec/ImpStmtB.v), evaluated on the
+   records of a statement the generator calls well-formed, must be defined (the statement satisfies the hypothesis of
+   C13_<importer>_stdout) and be the standard output of the binary, byte for byte *)
+let statement_verdict (imp : string) (base : string) (out : K.z list option) : string =
+  match out with
+  | None -> "FAIL:" ^ imp ^ "_statement_wf: the statement is outside the hypothesis of C13_" ^ imp ^ "_stdout"
+  | Some o ->
+    if "OK " ^ esc (string_of_str o) = base then "ok"
+    else "FAIL:" ^ imp ^ "_statement_output: stdout is not the journal the specification prescribes for the statement"
+
 let run (imp : string) (inp : string) (obs : string) : string * string =
   let (fl, _, items) = split3 inp in
   let flags = flag_assoc fl in
@@ -96,13 +114,42 @@ let run (imp : string) (inp : string) (obs : string) : string * string =
         | _ -> failwith ("unknown importer " ^ imp)) in
   let (base, pr, rows) = split_observed obs in
   let cls = match String.index_opt base ' ' with Some i -> String.sub base 0 i | None -> base in
+  (* the executable statement-level specification (Spec/ImpStmtA.v) on the binary's stdout *)
+  let statement_spec () =
+    let undecoded = "FAIL:" ^ imp ^ "_statement_wf: account flag or records of a well-formed case do not decode" in
+    let acc = match acct with
+      | Some s -> (match K.account_flag (str_of_string s) with K.AAcc x -> Some x | _ -> None)
+      | None -> None in
+    match imp with
+    | "viac" ->
+      let from = match opt_flag (get "from") with Some f -> Some (str_of_string f) | None -> None in
+      (match acct, decode_viac items with
+       | Some c, K.VValues l when K.valid_name (str_of_string c) ->
+         statement_verdict imp base (K.viac_statement_output (str_of_string c) from l)
+       | _ -> undecoded)
+    | _ ->
+      (match acc, records_of (decode_items items) with
+       | Some a, Some rs ->
+         (match imp with
+          | "swisscard2" -> statement_verdict imp base (K.sc2_statement_output a rs)
+          | "supercard" -> statement_verdict imp base (K.sup_statement_output a rs)
+          | "swisscard" -> statement_verdict imp base (K.sc_statement_output a rs)
+          | "cumulus" -> statement_verdict imp base (K.cum_statement_output a rs)
+          | "postfinance" -> statement_verdict imp base (K.pf_statement_output a rs)   (* postfinance_debug = false *)
+          | _ -> failwith ("unknown importer " ^ imp))
+       | _ -> undecoded) in
   let spec =
     if kind = "wf" then
       if cls <> "OK" then "FAIL:well-formed statement not imported: " ^ clip 60 base
-      else if pr <> "ok" && rows <> "ok" then "FAIL:print=" ^ pr ^ "; rows=" ^ rows
-      else if pr <> "ok" then "FAIL:print=" ^ pr
-      else if rows <> "ok" then "FAIL:rows=" ^ rows
-      else "ok"
+      else
+        (* the statement-level verdict is evaluated whatever the observer's verdicts say (a known finding of the
+           row reader, e.g. cumulus' payment rows, must not hide a wrong journal) *)
+        let st = statement_spec () in
+        let also = if st = "ok" then "" else "; " ^ String.sub st 5 (String.length st - 5) in
+        if pr <> "ok" && rows <> "ok" then "FAIL:print=" ^ pr ^ "; rows=" ^ rows ^ also
+        else if pr <> "ok" then "FAIL:print=" ^ pr ^ also
+        else if rows <> "ok" then "FAIL:rows=" ^ rows ^ also
+        else st
     else
       (* a damaged statement or a missing/empty account flag: outside C13, which quantifies over
          well-formed statements (and `import` is not among C14's commands).  No verdict; the
